@@ -183,11 +183,27 @@ def handler(case):
             return None
         out = []
         for nm, da in zip(m.delay_states, m.delay_arguments):
+            fr = ev.free(da.expr) + ev.free(da.duration)
+            if fr:
+                out.append({"state": nm, "free": fr, "repr": ("%s / %s" % (da.expr, da.duration))[:120]})
+                continue
             e, d = ev([da.expr, da.duration])
             out.append({"state": nm, "shape": [e.size1(), e.size2()],
                         "expr": [[num(e[i, j]) for j in range(e.size2())] for i in range(e.size1())],
                         "duration": [num(d[i]) for i in range(d.numel())]})
         return out
+
+    def delay_fn(m):
+        """the real delay_arguments_function at the prescribed point: [expr1, duration1, expr2, ...]"""
+        try:
+            args = group_vectors(m)
+            f = m.delay_arguments_function
+            outs = f.call(args) if f.n_out() else []
+            return {"outs": [[[num(ca.DM(o)[i, j]) for j in range(o.size2())] for i in range(o.size1())] for o in outs]}
+        except Missing as e:
+            return {"err": "missing:" + str(e)}
+        except Exception as e:  # noqa - recorded, judged by the parent
+            return {"err": "%s: %s" % (type(e).__name__, str(e).strip().splitlines()[-1][:200])}
 
     res = {}
     # ---- U: the unexpanded model ---------------------------------------------------------
@@ -202,6 +218,7 @@ def handler(case):
     if case.get("residual", True) and not has_tensor:
         res["U_res"] = residuals(mu)
         res["U_delays"] = delays(mu, evu)
+        res["U_delay_fn"] = delay_fn(mu) if mu.delay_states else None
     # ---- E: the expanded model -----------------------------------------------------------
     me = gen()
     try:
@@ -216,8 +233,12 @@ def handler(case):
     res["E_eval_err"] = erre
     res["E_n_eq"] = [len(me.equations), len(me.initial_equations)]
     if case.get("residual", True) and not has_tensor:
-        res["E_res"] = residuals(me)
+        try:
+            res["E_res"] = residuals(me)
+        except Exception as e:  # noqa - the expanded model's own residual functions must be usable
+            res["E_res"] = {"err": "%s: %s" % (type(e).__name__, str(e).strip().splitlines()[-1][:200])}
         res["E_delays"] = delays(me, eve)
+        res["E_delay_fn"] = delay_fn(me) if me.delay_states else None
     # ---- the real variable_metadata_function of the expanded model at the parameter valuation ------
     if case.get("metadata", True):
         try:
